@@ -397,6 +397,8 @@ def c08(tier):
         'assumptions': ASSUME_SET + ['buffer writes are observed by hashing after every call (a write that is undone within one call is invisible)'],
         'phases': [
             {'kind': 'drive', 'profile': 'zerocopy', 'traces': 240 if q else 4000, 'steps': 60},
+            {'kind': 'drive', 'profile': 'kernel', 'traces': 600 if q else 12000, 'steps': 0},      # operands loaded zero-copy (recipes Rz, Rof) x every kernel
+            {'kind': 'drive', 'profile': 'aggkernel', 'traces': 200 if q else 4000, 'steps': 0},
         ],
     }
 
